@@ -45,7 +45,7 @@ class Decider:
         with tempfile.NamedTemporaryFile('w', suffix='.smt2', delete=False, dir='/verif/.cache') as f:
             f.write(text)
             path = f.name
-        if 'to_ieee_bv' in text or 'FloatingPoint' in text:
+        if 'to_ieee_bv' in text or 'FloatingPoint' in text or 'fp.' in text or 'Float64' in text or 'roundNearest' in text:
             # z3's fp.to_ieee_bv is not SMT-LIB standard and cvc5 rejects it: floating-point queries are re-run on the
             # independent z3 5.1 build instead
             cmd = ['z3-new', f'-T:{int(self.timeout_ms / 1000) + 1}', path]
